@@ -75,7 +75,7 @@ theorem length_erase_obj {l : List Obj} {o : Obj} (h : o ∈ l) :
 
 macro "acct_simp" h:ident : tactic => `(tactic|
   simp only [State.setOp, State.emit, arriveRecycle, handOut, arrivePostCreate, failPermit,
-    finishResize, returnResize,
+    finishResize,
     sumW_set' _ _ $h, Op.permW, Op.objW, Op.sizeW, Op.usersW, GPc.permW, GPc.objW, GPc.sizeW,
     GPc.usersW, List.length_append, List.length_cons, List.length_nil, Sem.addPermits_tokens,
     Sem.dropAcquire_tokens, Sem.close_tokens] at *)
